@@ -188,7 +188,44 @@ def static_locals(repo, rep, rule):
     rep.ok(rule, SPECPART_C, f"{n_} local declarations", "none has static storage: every per-call buffer is sized by this call")
 
 
+def fit_failures_handled(repo, rep, rule):
+    """scipy's curve_fit reports a failed fit in three ways: ValueError (first guess outside the bounds, NaN in the data), RuntimeError (no convergence) and,
+    with warnings turned into errors, OptimizeWarning (covariance not estimated).  The fitting kernels run once per spectrum inside apply_ufunc: a failure
+    that is not caught aborts the whole dataset instead of giving NaN for that spectrum."""
+    need = {"ValueError", "RuntimeError", "OptimizeWarning"}
+    n_ = 0
+    m = repo.module("wavespectra.core.fitting")
+    for fi in m.all_funcs():
+        for t in ast.walk(fi.node):
+            if not isinstance(t, ast.Try):
+                continue
+            if not any(isinstance(c, ast.Call) and call_name(c).split(".")[-1] == "curve_fit" for b in t.body for c in ast.walk(b)):
+                continue
+            n_ += 1
+            caught = set()
+            for h in t.handlers:
+                if h.type is None:
+                    caught |= need
+                else:
+                    for x in ([h.type] if not isinstance(h.type, ast.Tuple) else h.type.elts):
+                        nm = unparse(x).split(".")[-1]
+                        caught.add(nm)
+                        if nm in ("Exception", "BaseException"):
+                            caught |= need
+                        if nm in ("Warning", "UserWarning", "RuntimeWarning") and nm != "RuntimeWarning":
+                            caught.add("OptimizeWarning")
+            if need <= caught:
+                rep.ok(rule, f"{fi.file}:{t.lineno} {fi.short}", "try: curve_fit(..)", f"handlers cover {sorted(need)}")
+            else:
+                rep.fail(rule, fi.file, t.lineno, fi.qualname, "try: curve_fit(..) except " + ", ".join(sorted(caught)),
+                         f"a failed fit raising {sorted(need - caught)} is not caught: one such spectrum (e.g. a first guess outside the hard bounds: Hs > 30 m) makes the "
+                         "whole vectorised fit raise instead of returning NaN for that spectrum", anchor=f"fit-handlers:{fi.short}")
+    rep.floor(rule, "guarded curve_fit calls", n_, 2)
+
+
 def run(repo, rep, tier):
+    rep.rule("R-C20-20", "every curve_fit call of the fitting kernels is guarded against ValueError, RuntimeError and OptimizeWarning (a failed fit gives NaN, not an exception)")
+    fit_failures_handled(repo, rep, "R-C20-20")
     rep.rule("R-C20-19", "no function-scope static object in specpart.c: per-call buffers are sized by the call that uses them")
     static_locals(repo, rep, "R-C20-19")
     spectral_dim_tests(repo, rep)
